@@ -19,7 +19,7 @@ func TestVerifDisplay(t *testing.T) {
 	r := rand.New(rand.NewSource(res.Seed))
 	start := time.UnixMilli(1683979200000).UTC()
 	n := res.n(16, 150)
-	headingCalls := -1
+	headingCalls, headingLen := -1, 0
 	rp := vReplay("display")
 	if rp != nil {
 		n = 1
@@ -38,18 +38,21 @@ func TestVerifDisplay(t *testing.T) {
 			chunkList = []int{8192, 0}
 		}
 		var stall time.Duration
-		if i >= n-res.n(1, 2) {
+		stallFirst := false
+		if i >= n-2 {
 			stall = time.Duration(res.n(8, 35)) * time.Second
+			stallFirst = i == n-2
 		}
 		if rp != nil {
 			bs = vUnhx(rp["stream"])
 			frames = vFramesOf(start, bs)
 			delay, _ = time.ParseDuration(rp["delay"])
 			stall, _ = time.ParseDuration(rp["stall"])
+			stallFirst = rp["stallfirst"] == "true"
 			chunkList = vInts(rp["chunks"])
 		}
 		var cfg jsonconfig.Config
-		op := fmt.Sprintf("display delay=%v stall=%v chunks=%s stream=%s", delay, stall, vIntsText(chunkList), vhx(bs))
+		op := fmt.Sprintf("display delay=%v stall=%v stallfirst=%v chunks=%s stream=%s", delay, stall, stallFirst, vIntsText(chunkList), vhx(bs))
 		vMark(op)
 		// reference: instant writer, read after quiescence
 		refW := &slowWriter{}
@@ -62,10 +65,14 @@ func TestVerifDisplay(t *testing.T) {
 			HandleMessages(start, &chunked{data: nil, chunks: []int{4096}}, hw, &cfg)
 			time.Sleep(30 * time.Millisecond)
 			headingCalls = hw.callCount()
+			headingLen = len(hw.snapshot())
 		}
 		wantCalls := headingCalls + len(vSegments(bs))
 		var inputDone int32
 		w := &slowWriter{delay: delay, stall: stall, stallAt: len(want)}
+		if stallFirst {
+			w.stallAt = headingLen + 1 // the first write after the heading
+		}
 		failure := ""
 		func() {
 			defer func() {
